@@ -455,7 +455,23 @@ func (r *collection) Remove(t reflect.Type) {
 	defer r.mu.Unlock()
 
 	typeKey := TypeKey{Type: t}
+	r.removeLocked(typeKey)
+}
+
+// removeLocked deletes a registration from every view of the collection.
+func (r *collection) removeLocked(typeKey TypeKey) {
+	descriptor, ok := r.services[typeKey]
+	if !ok {
+		return
+	}
+
 	delete(r.services, typeKey)
+	for i, d := range r.allDescriptors {
+		if d == descriptor {
+			r.allDescriptors = append(r.allDescriptors[:i:i], r.allDescriptors[i+1:]...)
+			break
+		}
+	}
 }
 
 // RemoveKeyed removes a specific keyed service
@@ -468,7 +484,7 @@ func (r *collection) RemoveKeyed(t reflect.Type, key any) {
 	defer r.mu.Unlock()
 
 	typeKey := TypeKey{Type: t, Key: key}
-	delete(r.services, typeKey)
+	r.removeLocked(typeKey)
 }
 
 // ToSlice returns a copy of all registered service descriptors
